@@ -154,19 +154,33 @@ Print Assumptions C12_no_transplant.
 
 (* ---- genesis export + import ---- *)
 
-Theorem C12_import_at_most_one : forall st, NoDup (map fst (import_conf st)).
+Theorem C12_import_at_most_one : forall by_ext st, NoDup (map fst (import_conf by_ext st)).
 Proof. exact import_nodup. Qed.
 Print Assumptions C12_import_at_most_one.
 
-Theorem C12_import_sound : forall st, bridgers_resolve_to_key st ->
-  forall e, In e (import_conf st) -> In e (st_conf st).
-Proof. exact import_sound. Qed.
+(* owner of an imported confirm looked up by its bridger (the tree as it is): guarded *)
+Theorem C12_import_sound_by_bridger : forall st, bridgers_resolve_to_key st ->
+  forall e, In e (import_conf false st) -> In e (st_conf st).
+Proof. exact import_sound_by_bridger. Qed.
+Print Assumptions C12_import_sound_by_bridger.
+
+(* ... by its external address (the proposed fix): no condition on bridgers *)
+Theorem C12_import_sound : forall st, conf_attributed st -> ext_unique st ->
+  forall e, In e (import_conf true st) -> In e (st_conf st).
+Proof. exact import_sound_by_external. Qed.
 Print Assumptions C12_import_sound.
 
-(* the guard is needed: a released bridger account taken over by another oracle *)
+Theorem C12_import_sound_on_tree : forall st,
+  (if genesis_confirm_owner_by_external then conf_attributed st /\ ext_unique st else bridgers_resolve_to_key st) ->
+  forall e, In e (import_conf genesis_confirm_owner_by_external st) -> In e (st_conf st).
+Proof. exact import_sound_on_tree. Qed.
+Print Assumptions C12_import_sound_on_tree.
+
+(* finding C12-1: without the guard the by-bridger import files a confirm under another oracle; by external address it does not *)
 Theorem C12_import_misattributes_after_bridger_reuse :
-  import_conf ex_reuse_state = [(((KOracleSet, 0, 3), 12), ex_msg)] /\ m_external ex_msg = 31 /\
-  assoc Z.eqb 12 (st_oracles ex_reuse_state) = Some {| o_bridger := 21; o_external := 32 |}.
+  import_conf false ex_reuse_state = [(((KOracleSet, 0, 3), 12), ex_msg)] /\ m_external ex_msg = 31 /\
+  assoc Z.eqb 12 (st_oracles ex_reuse_state) = Some {| o_bridger := 21; o_external := 32 |} /\
+  import_conf true ex_reuse_state = st_conf ex_reuse_state.
 Proof. exact import_misattributes_after_bridger_reuse. Qed.
 Print Assumptions C12_import_misattributes_after_bridger_reuse.
 
